@@ -1,10 +1,264 @@
-/- Line-protocol handlers for C11 (placeholder until the property is built). -/
-import PandoraModel.Model.Basic
+/- Line-protocol handlers for C11 (cross-based cost aggregation): model AND specification evaluation. -/
+import PandoraModel.Model.Cbca
 
 namespace Pandora.Driver.C11
 open Lean (Json)
+open Pandora Pandora.Cbca
 
-def handle (op : String) (_j : Json) : Except String Json :=
-  throw s!"unknown op {op}"
+/-! ### tabulation helpers (execution materialises the index functions) -/
+
+def tab2 {α} (H W : Nat) (f : Nat → Nat → α) : Array (Array α) :=
+  (Array.range H).map fun y => (Array.range W).map fun x => f y x
+
+def look2 {α} (a : Array (Array α)) (dflt : α) (y x : Nat) : α :=
+  match a[y]? with
+  | some r => r.getD x dflt
+  | none => dflt
+
+def gridFn {α} (g : Grid α) (dflt : α) : Nat → Nat → α :=
+  look2 (g.map List.toArray).toArray dflt
+
+def armsToJson (a : Arms) : Json := Json.arr #[natToJson a.left, natToJson a.right, natToJson a.top, natToJson a.bot]
+
+def armsOfJson (j : Json) : Except String Arms := do
+  match ← listOfJson natOfJson j with
+  | [l, r, t, b] => pure ⟨l, r, t, b⟩
+  | _ => throw "arms: expected [left, right, top, bot]"
+
+def ruleOfJson (j : Json) : Except String MinRule :=
+  match j with
+  | Json.str "neighbour" => .ok .neighbour
+  | Json.str "loopVar" => .ok .loopVar
+  | _ => .error s!"bad rule {j.compress}"
+
+def arr2ToJson {α} (f : α → Json) (a : Array (Array α)) : Json := Json.arr (a.map fun r => Json.arr (r.map f))
+
+/-! ### C11.cross_support : arms of one image, as coded and as specified; verdict on given arms -/
+
+/-- the four arm views of pixel `(y, x)`: (side name, pixel function along the arm, room) -/
+def armViews (H W : Nat) (img : Img) (y x : Nat) : List (String × (Nat → Val) × Nat) :=
+  [("left", fun k => img y (x - k), x), ("right", fun k => img y (x + k), W - 1 - x),
+   ("top", fun k => img (y - k) x, y), ("bot", fun k => img (y + k) x, H - 1 - y)]
+
+def armsList (a : Arms) : List Nat := [a.left, a.right, a.top, a.bot]
+
+/-- first failing sub-clause of an arm length, `none` when the arm is as specified -/
+def armVerdict (I : Rat) (px : Nat → Val) (dist room L : Nat) : Option String :=
+  if !armStopMasked px room L then some "stop_masked"
+  else if !armStopDistance dist L then some "stop_distance"
+  else if !armStopIntensity I px L then some "stop_intensity"
+  else if !armMinOne px room L then some "min_one"
+  else if !armMaximal I px dist room L then some "maximal"
+  else if L != armRef I px dist room then some "ref"
+  else none
+
+def badArms (H W dist : Nat) (I : Rat) (img : Img) (given : Nat → Nat → Arms) : Array Json := Id.run do
+  let mut out : Array Json := #[]
+  for y in [0:H] do
+    for x in [0:W] do
+      for (v, L) in (armViews H W img y x).zip (armsList (given y x)) do
+        match armVerdict I v.2.1 dist v.2.2 L with
+        | some sub =>
+          if out.size < 40 then
+            out := out.push (mkObj [("y", natToJson y), ("x", natToJson x), ("side", Json.str v.1), ("sub", Json.str sub),
+              ("given", natToJson L), ("expected", natToJson (armRef I v.2.1 dist v.2.2)),
+              ("neighbour_masked", Json.bool (decide (1 ≤ v.2.2) && (v.2.1 1).isNan))])
+        | none => pure ()
+  return out
+
+/-- why the specified arm stops where it does (for the measured input distribution) -/
+def armReason (I : Rat) (px : Nat → Val) (dist room : Nat) : String :=
+  if (px 0).isNan then "masked_anchor"
+  else
+    let n := min (dist - 1) room
+    let run := runLen I px n
+    let L := armRef I px dist room
+    if run = 0 ∧ L = 1 then "min_one"
+    else if run = n then (if room ≤ dist - 1 then "border" else "distance")
+    else if (px (run + 1)).isNan then "masked"
+    else "intensity"
+
+def reasonsHist (H W dist : Nat) (I : Rat) (img : Img) : Json := Id.run do
+  let keys := ["masked_anchor", "min_one", "border", "distance", "masked", "intensity"]
+  let mut cnt : Array Nat := Array.replicate keys.length 0
+  for y in [0:H] do
+    for x in [0:W] do
+      for v in armViews H W img y x do
+        let r := armReason I v.2.1 dist v.2.2
+        match keys.idxOf? r with
+        | some i => cnt := cnt.modify i (· + 1)
+        | none => pure ()
+  return mkObj (keys.zip (cnt.toList.map natToJson))
+
+def crossSupportOp (j : Json) : Except String Json := do
+  let H ← field j "H" >>= natOfJson
+  let W ← field j "W" >>= natOfJson
+  let dist ← field j "dist" >>= natOfJson
+  let I ← field j "intensity" >>= ratOfJson
+  let mr ← ruleOfJson (fieldD j "rule" (Json.str "loopVar"))
+  let img ← field j "image" >>= gridOfJson valOfJson
+  let f := gridFn img Val.nan
+  let coded := tab2 H W (crossSupport mr H W dist I f)
+  let ref := tab2 H W (crossRef H W dist I f)
+  let mut res := [("coded", arr2ToJson armsToJson coded), ("ref", arr2ToJson armsToJson ref),
+                  ("in_image", Json.bool (armsInImage H W (look2 coded default))),
+                  ("reasons", reasonsHist H W dist I f)]
+  match j.getObjVal? "impl" with
+  | .ok g =>
+    let given ← gridOfJson armsOfJson g
+    res := res ++ [("bad", Json.arr (badArms H W dist I f (gridFn given default)))]
+  | .error _ => pure ()
+  return mkObj res
+
+/-! ### C11.median : the 3×3 pre-filter on a masked image -/
+
+def medianOp (j : Json) : Except String Json := do
+  let H ← field j "H" >>= natOfJson
+  let W ← field j "W" >>= natOfJson
+  let img ← field j "image" >>= gridOfJson valOfJson
+  return arr2ToJson valToJson (tab2 H W (median3 H W (gridFn img Val.nan)))
+
+/-! ### C11.steps : steps 1–4 of one plane with given cross supports -/
+
+def cellToJson (isNan : Bool) (s : Rat) (n : Nat) : Json :=
+  if isNan then Json.str "nan" else Json.arr #[ratToJson s, natToJson n]
+
+def planeReport (P : Plane) : List (String × Json) :=
+  [("step2", arr2ToJson ratToJson (tab2 P.H P.W (step2 P))),
+   ("sum2", arr2ToJson natToJson (tab2 P.H P.W (sum2 P))),
+   ("step4", arr2ToJson ratToJson (tab2 P.H P.W (step4 P))),
+   ("sum4", arr2ToJson natToJson (tab2 P.H P.W (sum4 P))),
+   ("out", arr2ToJson valToJson (tab2 P.H P.W (aggOut P))),
+   ("spec_sum", arr2ToJson ratToJson (tab2 P.H P.W (specSum P))),
+   ("spec_count", arr2ToJson natToJson (tab2 P.H P.W (specCount P))),
+   ("spec_h", arr2ToJson natToJson (tab2 P.H P.W (fun y x => hLeft P x y + hRight P x y))),
+   ("facing", arr2ToJson Json.bool (tab2 P.H P.W (fun _ x => (rightCol P.d P.Wr x).isSome))),
+   ("arms_in_image", Json.bool (armsInImage P.H P.W P.armsL)),
+   ("nan_outside", Json.bool (nanOutside P))]
+
+def stepsOp (j : Json) : Except String Json := do
+  let H ← field j "H" >>= natOfJson
+  let W ← field j "W" >>= natOfJson
+  let Wr ← field j "Wr" >>= natOfJson
+  let d ← field j "d" >>= ratOfJson
+  let cv ← field j "cv" >>= gridOfJson valOfJson
+  let aL ← field j "armsL" >>= gridOfJson armsOfJson
+  let aR ← field j "armsR" >>= gridOfJson armsOfJson
+  let P : Plane := { H, W, cv := gridFn cv Val.nan, armsL := gridFn aL default, armsR := gridFn aR default, Wr, d }
+  return mkObj (planeReport P)
+
+/-! ### C11.aggregate : the whole step -/
+
+def inputOfJson (j : Json) : Except String Input := do
+  let H ← field j "H" >>= natOfJson
+  let W ← field j "W" >>= natOfJson
+  let off ← field j "off" >>= natOfJson
+  let imL ← field j "imL" >>= gridOfJson ratOfJson
+  let imR ← field j "imR" >>= gridOfJson ratOfJson
+  let mskOf (k : String) : Except String (Bool × Grid Int) :=
+    match j.getObjVal? k with
+    | .ok Json.null => pure (false, [])
+    | .ok g => do pure (true, ← gridOfJson intOfJson g)
+    | .error _ => pure (false, [])
+  let (hasL, mL) ← mskOf "mskL"
+  let (hasR, mR) ← mskOf "mskR"
+  let validL ← intOfJson (fieldD j "validL" (intToJson 0))
+  let validR ← intOfJson (fieldD j "validR" (intToJson 0))
+  let dist ← field j "dist" >>= natOfJson
+  let I ← field j "intensity" >>= ratOfJson
+  let subpix ← field j "subpix" >>= natOfJson
+  let disp ← field j "disp" >>= listOfJson ratOfJson
+  let mr ← ruleOfJson (fieldD j "rule" (Json.str "loopVar"))
+  let cv ← field j "cv" >>= listOfJson (gridOfJson valOfJson)   -- [y][x][dsp]
+  let cvA : Array (Array (Array Val)) := (cv.map fun r => (r.map List.toArray).toArray).toArray
+  let dispA := disp.toArray
+  return {
+    H, W, off, imL := gridFn imL 0, hasMskL := hasL, mskL := gridFn mL 0, validL,
+    imR := gridFn imR 0, hasMskR := hasR, mskR := gridFn mR 0, validR,
+    dist, I, subpix, disp := fun k => dispA.getD k 0,
+    cv := fun y x k => match cvA[y]? with
+      | some r => (match r[x]? with | some c => c.getD k Val.nan | none => Val.nan)
+      | none => Val.nan,
+    mr }
+
+/-- cell of a plane: "nan" or [sum, count] -/
+def cellsOf (P : Plane) (sumF : Nat → Nat → Rat) (cntF : Nat → Nat → Nat) : Json :=
+  arr2ToJson id (tab2 P.H P.W fun y x => cellToJson (P.cv y x).isNan (sumF y x) (cntF y x))
+
+def aggregateOp (j : Json) : Except String Json := do
+  let inp ← inputOfJson j
+  let nd ← (field j "disp" >>= listOfJson ratOfJson).map List.length
+  let h := inp.h
+  let w := inp.w
+  -- materialise the filtered images and the cross supports once
+  let fL := tab2 inp.H inp.W inp.filteredL
+  let fLf : Img := look2 fL Val.nan
+  let codedL := tab2 h w (crossSupport inp.mr h w inp.dist inp.I (crop inp.off fLf))
+  let refL := tab2 h w (crossRef h w inp.dist inp.I (crop inp.off fLf))
+  let shifts := List.range (max inp.subpix 1)
+  let fR := shifts.toArray.map fun k => tab2 inp.H (if k = 0 then inp.W else inp.W - 1) (inp.filteredR k)
+  let codedR := shifts.toArray.map fun k =>
+    tab2 h (inp.wr k) (crossSupport inp.mr h (inp.wr k) inp.dist inp.I (crop inp.off (look2 (fR.getD k #[]) Val.nan)))
+  let refR := shifts.toArray.map fun k =>
+    tab2 h (inp.wr k) (crossRef h (inp.wr k) inp.dist inp.I (crop inp.off (look2 (fR.getD k #[]) Val.nan)))
+  let cL : Nat → Nat → Arms := look2 codedL default
+  let cR : Nat → Nat → Nat → Arms := fun k => look2 (codedR.getD k #[]) default
+  let rL : Nat → Nat → Arms := look2 refL default
+  let rR : Nat → Nat → Nat → Arms := fun k => look2 (refR.getD k #[]) default
+  let planes := (List.range nd).map fun dsp =>
+    let P := inp.planeWith cL cR dsp
+    let Pr := inp.planeWith rL rR dsp
+    mkObj [("model", cellsOf P (step4 P) (sum4 P)),
+           ("spec", cellsOf Pr (specSum Pr) (specCount Pr)),
+           ("spec_coded_arms", cellsOf P (specSum P) (specCount P)),
+           ("facing", Json.arr ((Array.range w).map fun x => Json.bool (rightCol P.d P.Wr x).isSome)),
+           ("i_right", natToJson (iRight inp.subpix (inp.disp dsp))),
+           ("nan_outside", Json.bool (nanOutside P))]
+  -- verdict on the implementation's cross supports, when given
+  let mut bad : Array Json := #[]
+  match j.getObjVal? "implL" with
+  | .ok g =>
+    let given ← gridOfJson armsOfJson g
+    bad := bad ++ (badArms h w inp.dist inp.I (crop inp.off fLf) (gridFn given default)).map
+      (fun b => b.setObjVal! "image" (Json.str "left"))
+  | .error _ => pure ()
+  match j.getObjVal? "implR" with
+  | .ok gs =>
+    let givens ← listOfJson (gridOfJson armsOfJson) gs
+    for (k, given) in (List.range givens.length).zip givens do
+      bad := bad ++ (badArms h (inp.wr k) inp.dist inp.I (crop inp.off (look2 (fR.getD k #[]) Val.nan)) (gridFn given default)).map
+        (fun b => (b.setObjVal! "image" (Json.str "right")).setObjVal! "shift" (natToJson k))
+  | .error _ => pure ()
+  return mkObj [
+    ("h", natToJson h), ("w", natToJson w), ("bad_arms", Json.arr bad),
+    ("reasons", reasonsHist h w inp.dist inp.I (crop inp.off fLf)),
+    ("filteredL", arr2ToJson valToJson fL),
+    ("armsL", arr2ToJson armsToJson codedL), ("armsL_ref", arr2ToJson armsToJson refL),
+    ("armsR", Json.arr (codedR.map (arr2ToJson armsToJson))), ("armsR_ref", Json.arr (refR.map (arr2ToJson armsToJson))),
+    ("planes", Json.arr planes.toArray)]
+
+/-- the definition `aggregate` evaluated literally (no tabulation; slow) on the listed cells `[y, x, dsp]` -/
+def aggregateDirectOp (j : Json) : Except String Json := do
+  let inp ← inputOfJson j
+  let cells ← field j "cells" >>= listOfJson (listOfJson natOfJson)
+  let outs ← cells.mapM fun c => match c with
+    | [y, x, k] =>
+      let P := inp.plane k
+      let yy := y - inp.off
+      let xx := x - inp.off
+      pure (mkObj [("value", valToJson (aggregate inp y x k)),
+                   ("in_area", Json.bool (inArea inp y x)),
+                   ("cell", cellToJson (P.cv yy xx).isNan (step4 P yy xx) (sum4 P yy xx))])
+    | _ => throw "cells: expected [y, x, dsp]"
+  return Json.arr outs.toArray
+
+def handle (op : String) (j : Json) : Except String Json :=
+  match op with
+  | "C11.cross_support" => crossSupportOp j
+  | "C11.median" => medianOp j
+  | "C11.steps" => stepsOp j
+  | "C11.aggregate" => aggregateOp j
+  | "C11.aggregate_direct" => aggregateDirectOp j
+  | _ => throw s!"unknown op {op}"
 
 end Pandora.Driver.C11
